@@ -174,6 +174,14 @@ func evalC04(c *Ctx, cs *Case) {
 			c.Count("failed_calls_before", 4)
 			o := OutputMD(doc, encOpt[enc])
 			check("OutputFromMarkdown", enc, o.Out, o, merged)
+			// the deprecated aliases with the same option
+			aw := mon.NewRecWriter()
+			ao := Guard(func() error { return gtree.Output(aw, strings.NewReader(doc), encOpt[enc]) })
+			check("Output(alias)", enc, aw.Bytes(), ao, merged)
+			pw := mon.NewRecWriter()
+			pr := BuildRoot(f[0])
+			po := Guard(func() error { return gtree.OutputProgrammably(pw, pr, encOpt[enc]) })
+			check("OutputProgrammably(alias)", enc, pw.Bytes(), po, model.Merge(model.Forest{f[0]}))
 		}
 		// massive mode (several roots): same documents / lines, in any order of roots
 		if spellable && len(f) >= 2 && enc != "toml" {
